@@ -153,13 +153,15 @@ def run(ctx):
     histories(ctx, 110 * scale, codes=[None, None, 1, 1, 0, 2, 3, 4, 5], imports=IMPORTS, settle_end=True,
               coupled_p=0.85, label="history-ext", after=after)
     transfers(ctx, 30 * scale)
+    c19.schedules(ctx, setups=(0,))
     c19.blocked_runs(ctx)
+    c19.loopback_runs(ctx, 6 * (3 if ctx.thorough else 1))
     c19.live_runs(ctx, 2 * (3 if ctx.thorough else 1))
 
 
 def replay(ctx, rep):
     case = rep["case"]
-    if case.get("live") or case.get("blocked"):
+    if case.get("live") or case.get("blocked") or case.get("sched") or case.get("loopback"):
         return c19.replay(ctx, rep)
     if case.get("transfer"):
         pair, out, rounds = real_transfer(case["W"], case["P"], case["n"], case["code"], case["fuel"],
